@@ -270,6 +270,31 @@ def Cond.check : Cond → Bool
   | .ff => true
   | .err => false
 
+/-- "Req. Type" of the README: the operator of a `Where` fits the kind of the root-level field it names
+    (`exists` fits every root-level selector). -/
+def Leaf.typedFor (fs : Fields) (sel : Sel) (l : Leaf) : Prop :=
+  match sel with
+  | [name] =>
+    (match l, lookup name fs with
+     | .ex, _ => True
+     | .intCmp _ _, some (.prim (.int _)) => True
+     | .fltCmp _ _, some (.prim (.flt _)) => True
+     | .strOp _ _, some (.prim (.str _)) => True
+     | .inList _, some (.prim (.str _)) => True
+     | .re _ _ _, some (.prim (.str _)) => True
+     | .is _, some (.prim (.bool _)) => True
+     | _, _ => False)
+  | _ => False
+
+def Cond.typedFor (fs : Fields) : Cond → Prop
+  | .leaf sel l => l.typedFor fs sel
+  | .and a b => a.typedFor fs ∧ b.typedFor fs
+  | .or a b => a.typedFor fs ∧ b.typedFor fs
+  | .not c => c.typedFor fs
+  | .tt => True
+  | .ff => True
+  | .err => True
+
 /-- A query: key prefix + optional condition (`where == nil` ⇒ `none`). -/
 structure Query where
   pfx : String
@@ -483,7 +508,7 @@ inductive Out where
   | bool (b : Bool)
   | recs (rs : List Rec)
   | count (n : Nat)
-  deriving Repr
+  deriving Repr, DecidableEq
 
 /-- `Interface.Put` / `PutNew`. -/
 def ifPut (cfg : Cfg) (o : Opts) (st : ISt) (r : Rec) (now : Int) (isNew : Bool) : ISt × Out :=
